@@ -484,3 +484,67 @@ def case_poly(ctx, cfg):
             if e is not None or len(vs) != len(want["V"]) or not all(proj_eq(v.array, XF.fl(w)) for v, w in zip(vs, want["V"])):
                 ctx.fail(f"polytope:{XF.kind_name(d)}:vertices-property", "vertices", {"dim": dim, "generator": g, "object": d}, XF.state_json(want), e if e is not None else [v.array for v in vs])
                 return
+
+
+# ---------------------------------------------------------------------------------------------------
+# history on ONE transformation object: used on hyperplanes / quadrics (which need its inverse), then an entry of its matrix
+# is assigned in place (t[i, j] = v, the supported item assignment), then used again
+
+
+def enum_modified(tier, seed):
+    for dim in (2, 3):
+        for g in ("shear", "proj", "det2", "rot345", "trans"):
+            yield (dim, g)
+
+
+@family("C07", "transformation_modified_in_place", enum_modified)
+def case_modified(ctx, cfg):
+    import geometer as G
+
+    dim, g = cfg
+    n = dim + 1
+    M = [list(r) for r in XF.gen_matrix(dim, g)]
+    t = G.Transformation(XF.mat_np(M))
+    H = np.array(JM.proj_reps(lattice(3, 1) if dim == 2 else JM.A3()), dtype=float)
+    Pts = np.array(lattice(3, 1) if dim == 2 else JM.A3(), dtype=float)
+    S = (G.LineCollection if dim == 2 else G.PlaneCollection)(H)
+    X_ = G.PointCollection(Pts)
+    exact = (H @ Pts.T) == 0
+    Q = G.Conic(np.diag([1.0, 1.0, -25.0])) if dim == 2 else G.Quadric(np.diag([1.0, 1.0, 1.0, -9.0]))
+    ctx.state(cfg)
+
+    def check(tag, Mx):
+        Mi = X.inv(Mx)
+        MiT = np.array([[float(x) for x in r] for r in X.transpose(Mi)])
+        tS, e = ctx.call(lambda: t * S)
+        tX, e2 = ctx.call(lambda: t * X_)
+        tQ, e3 = ctx.call(lambda: t * Q)
+        ctx.trace(len(H) + len(Pts) + 1)
+        inputs = {"dim": dim, "generator": g, "history": tag}
+        if e or e2 or e3:
+            ctx.fail(f"modified:{tag}:raises", "t*x", inputs, "objects", e or e2 or e3)
+            return False
+        if not np.all(proj_eq_batch(tS.array, H @ MiT.T, 1e-9)):
+            ctx.fail(f"modified:{tag}:hyperplanes", "t*hyperplanes", inputs, "M^-T h", "mismatch")
+            return False
+        r, e = ctx.call(lambda: tS.expand_dims(1).contains(tX.expand_dims(0)))
+        if e is not None or not np.array_equal(r, exact):
+            ctx.fail(f"modified:{tag}:incidence", "(t*S).contains(t*x)", inputs, "exact incidence", e if e is not None else "mismatch")
+            return False
+        Mif = np.array([[float(x) for x in r_] for r_ in Mi])
+        if not proj_eq(tQ.array, Mif.T @ np.asarray(Q.array) @ Mif, 1e-9):
+            ctx.fail(f"modified:{tag}:quadric", "t*quadric", inputs, "M^-T A M^-1", tQ.array)
+            return False
+        return True
+
+    if not check("first-use", M):
+        return
+    # item assignment of one entry (translation part), then of a whole row
+    M[0][n - 1] = M[0][n - 1] + 2
+    t[0, n - 1] = float(M[0][n - 1])
+    if not check("after-entry-assignment", M):
+        return
+    M[1] = [M[1][j] + (3 if j == 1 else 0) for j in range(n)]
+    t[1] = np.array([float(x) for x in M[1]])
+    if X.det(X.mat(M)) != 0:
+        check("after-row-assignment", M)
